@@ -474,22 +474,50 @@ def repeated_formatting(c):
 
 
 def own_diff_prefix_attr(c):
-    """the documents bind the prefix `diff` to a namespace of their own and carry an ATTRIBUTE in that namespace"""
+    """the documents bind the prefix `diff` to a namespace of their own and USE it (an element or an attribute in that
+    namespace)"""
     for s in (c["left"], c["right"]):
         try:
             root = etree.fromstring(s)
         except Exception:  # noqa
             continue
         u = root.nsmap.get("diff")
-        if u and u != D[1:-1] and any(k.startswith("{%s}" % u) for e in root.iter() if isinstance(e.tag, str) for k in e.attrib):
+        if u and u != D[1:-1] and any(e.tag.startswith("{%s}" % u) or any(k.startswith("{%s}" % u) for k in e.attrib)
+                                      for e in root.iter() if isinstance(e.tag, str)):
             return True
     return False
+
+
+def own_ns_diff_vocab(c):
+    """the OUTPUT carries the formatter's vocabulary (insert, delete, rename, ...-attr) as names of the DOCUMENT's own
+    `diff` namespace although the input documents have no such names: the formatter's marks were printed with the
+    prefix diff where the document's binding of it is in force"""
+    try:
+        out = etree.fromstring(c["out_str"])
+        roots = [etree.fromstring(c["left"]), etree.fromstring(c["right"])]
+    except Exception:  # noqa
+        return False
+    u = next((r.nsmap.get("diff") for r in roots if r.nsmap.get("diff") and r.nsmap.get("diff") != D[1:-1]), None)
+    if not u:
+        return False
+    vocab = {"{%s}%s" % (u, n) for n in DOCUMENTED_ATTRS | DOCUMENTED_ELEMS}
+    def names(t):
+        return {e.tag for e in t.iter() if isinstance(e.tag, str)} | {k for e in t.iter() if isinstance(e.tag, str) for k in e.attrib}
+    have = set().union(*[names(r) for r in roots])
+    return bool((names(out) & vocab) - have)
+
+
+def own_diff_prefix_msg(msg):
+    """the failures of that class: a name of the document's namespace read back in the formatter's (printed with the
+    shadowed prefix), or a path step diff:name that _xpath resolves against the formatter's binding of `diff`"""
+    return bool(msg) and (msg.startswith("undocumented diff attribute") or msg.startswith("undocumented diff element")
+                          or ("ValueError" in msg and "xpath diff:" in msg))
 
 
 def key_C08(c, msg=""):
     if diffns_in_input(c):
         return "diff-namespace-in-input"
-    if msg.startswith("undocumented diff attribute") and own_diff_prefix_attr(c):
+    if own_diff_prefix_msg(msg) and own_diff_prefix_attr(c):
         return "own-diff-prefix-attribute-on-created-node"
     if "does not parse as XML" in msg and "already defined" in msg and c.get("dup_xmlid"):
         return "duplicate-xml-id-in-output"
@@ -548,7 +576,7 @@ def oracle_proj(c, mode):
     key = None
     if two_prefixes(c):
         key = "two-prefixes-one-uri-on-left-root"
-    elif own_diff_prefix_attr(c) and oracle_C08_msg(c) and oracle_C08_msg(c).startswith("undocumented diff attribute"):
+    elif own_diff_prefix_attr(c) and (own_diff_prefix_msg(oracle_C08_msg(c)) or own_ns_diff_vocab(c)):
         key = "own-diff-prefix-attribute-on-created-node"
     elif cfg["replace"] and cfg["tt"]:
         key = "use_replace-with-text_tags"
